@@ -1,7 +1,125 @@
-(** C04 - Worker resources are exclusive and conserved. *)
-From HQ Require Import Base.Prelude Gen.Consts Alloc.Model Alloc.Spec Alloc.Examples.
+(** C04 - Worker resources are exclusive and conserved.
+    Only statements closed by [exact]; the proofs live in HQ.Alloc.{Group,Pool,Inv,System,Theorems}.
+
+    Reading guide.  [init d] = ResourceAllocator::new on a validated descriptor; [run s0 ops] replays any
+    sequence of try_allocate / release_allocation / is_enabled calls with any witnesses (solver answers,
+    tie breaks) the model accepts; [s_live s] = the allocations running tasks hold in state s;
+    [worker_pools s0] = the initial pools (they define which (resource, group, index) the worker owns:
+    [in_universe]); [live_held live r g i] = fractions of index i (group g, resource r) held by the live
+    allocations (a whole index counts FRACTIONS_PER_UNIT); [pools_free] = free fractions of that index. *)
+From HQ Require Import Base.Prelude Gen.Consts Alloc.Model Alloc.Spec Alloc.Lemmas Alloc.Group Alloc.Pool Alloc.Inv Alloc.System Alloc.Theorems Alloc.Examples.
+Open Scope N_scope.
+
+(** No individual resource is ever held beyond 100 %, and nothing but the worker's own indices is held. *)
+Theorem C04_exclusive : forall d s0 ops s r p0 g i,
+  init d = Ok s0 -> run s0 ops = Ok s ->
+  r < len (worker_pools s0) -> nth_error (worker_pools s0) (nat_of r) = Some p0 ->
+  live_held (s_live s) r g i <= FPU
+  /\ (in_universe (worker_pools s0) r g i = false -> live_held (s_live s) r g i = 0).
+Proof. exact exclusive_thm. Qed.
+
+(** The amounts taken from a sum resource never exceed its size (free + taken = size). *)
+Theorem C04_sum_bound : forall d s0 ops s r f x,
+  init d = Ok s0 -> run s0 ops = Ok s ->
+  r < len (worker_pools s0) -> nth_error (worker_pools s0) (nat_of r) = Some (PSum f x) ->
+  live_sum_amount (s_live s) r <= f
+  /\ exists free, nth_error (a_pools (s_alloc s)) (nat_of r) = Some (PSum f free) /\ free + live_sum_amount (s_live s) r = f.
+Proof. exact sum_bound_thm. Qed.
+
+(** Conservation: for every index of the worker, free + held = 100 % in every reachable state - the free
+    state is a function of the multiset of live allocations, not of the history. *)
+Theorem C04_conservation : forall d s0 ops s r p0 g i,
+  init d = Ok s0 -> run s0 ops = Ok s ->
+  r < len (worker_pools s0) -> nth_error (worker_pools s0) (nat_of r) = Some p0 ->
+  in_universe (worker_pools s0) r g i = true ->
+  pools_free (a_pools (s_alloc s)) r g i + live_held (s_live s) r g i = FPU.
+Proof. exact conservation_thm. Qed.
+
+(** The values a task is told about are the ones it holds: a grant takes exactly the listed indices
+    (and fractions) out of the free state. *)
+Theorem C04_told_is_held : forall d s0 ops s rq w s' al r p0 g i,
+  init d = Ok s0 -> run s0 ops = Ok s -> step s (OAlloc rq w) = Ok (s', OutGrant al) ->
+  r < len (worker_pools s0) -> nth_error (worker_pools s0) (nat_of r) = Some p0 ->
+  in_universe (worker_pools s0) r g i = true ->
+  pools_free (a_pools (s_alloc s)) r g i = pools_free (a_pools (s_alloc s')) r g i + alloc_held al r g i.
+Proof. exact told_is_held_thm. Qed.
+
+(** When a task ends everything it held becomes available again ... *)
+Theorem C04_release_restores : forall d s0 ops s k s' o r p0 g i,
+  init d = Ok s0 -> run s0 ops = Ok s -> step s (ORelease k) = Ok (s', o) ->
+  r < len (worker_pools s0) -> nth_error (worker_pools s0) (nat_of r) = Some p0 ->
+  in_universe (worker_pools s0) r g i = true ->
+  exists al, nth_error (s_live s) (nat_of k) = Some al
+             /\ pools_free (a_pools (s_alloc s')) r g i = pools_free (a_pools (s_alloc s)) r g i + alloc_held al r g i.
+Proof. exact release_returns_thm. Qed.
+
+(** ... and after releasing everything the free state is the initial one: every index whole and free,
+    every sum resource at its size. *)
+Theorem C04_release_all_restores_initial : forall d s0 ops s,
+  init d = Ok s0 -> run s0 ops = Ok s -> s_live s = [] ->
+  (forall r p0 g i, r < len (worker_pools s0) -> nth_error (worker_pools s0) (nat_of r) = Some p0 ->
+                    in_universe (worker_pools s0) r g i = true -> pools_free (a_pools (s_alloc s)) r g i = FPU)
+  /\ (forall r f x, r < len (worker_pools s0) -> nth_error (worker_pools s0) (nat_of r) = Some (PSum f x) ->
+                    nth_error (a_pools (s_alloc s)) (nat_of r) = Some (PSum f f)).
+Proof. exact release_all_restores_thm. Qed.
+
+(** Returning the indices of an allocation that is held never hits the unwrap / assert of
+    ResourcePool::release_allocation, and restores the pool invariant without them. *)
+Theorem C04_release_no_panic : forall us l gs Hb,
+  GsI us gs (hsum (Hb ++ l)) (hfany (Hb ++ l)) ->
+  Forall (fun ix => ai_frac ix < FPU /\ ai_group ix < len gs) l ->
+  exists gs', release_indices_groups gs l = Ok gs' /\ GsI us gs' (hsum Hb) (hfany Hb) /\ length gs' = length gs.
+Proof. exact release_list. Qed.
+
+(** Exact amount (per resource): every accepted claim returns exactly the requested amount (the full size
+    for `all`), as whole indices followed by at most one fractional index whose parts add up to the amount. *)
+Theorem C04_exact_amount_partial : forall p p' rid rq ra,
+  claim_ok p p' rid rq ra = true ->
+  ra_res ra = rid /\ ra_amount ra = req_amount rq (pool_full_size p)
+  /\ same_kind p p' = true /\ pool_full_size p' = pool_full_size p
+  /\ match p, p' with
+     | PSum _ free, PSum _ free' => ra_amount ra <= free /\ free' = free - ra_amount ra /\ ra_indices ra = []
+     | PEmpty, _ => False
+     | _, _ => shape_ok (ra_indices ra) = true /\ ra_total ra = ra_amount ra
+               /\ take_all (pool_groups p) (ra_indices ra) = Some (pool_groups p')
+     end.
+Proof. exact claim_ok_inv. Qed.
+
+(** Concise mirror (the debug-only validate() as a theorem), per resource: if the admission summary mirrors
+    the pool, then after any accepted claim ConciseResourceState::remove does not panic and the summary
+    mirrors the pool again (all pool kinds; single-group and multi-group branches of concise.rs). *)
+Theorem C04_concise_mirrors_partial : forall p0 p c H taken p' rid rq ra,
+  PoolInv p0 p c H taken -> claim_ok p p' rid rq ra = true ->
+  exists c', cs_remove c ra = Ok c'
+             /\ PoolInv p0 p' c' (H ++ ra_indices ra) (taken + (if pool_is_sum p then ra_amount ra else 0)).
+Proof. exact claim_PoolInv. Qed.
+
+(** full statements of the two partial theorems (not proved at this strength) *)
+Definition C04_concise_mirrors_full : Prop := forall d s0 ops s,
+  init d = Ok s0 -> run s0 ops = Ok s -> mirror_ok (a_pools (s_alloc s)) (a_free (s_alloc s)) = true.
+Definition C04_exact_amount_full : Prop := forall d s0 ops s rq w s' al,
+  init d = Ok s0 -> run s0 ops = Ok s -> step s (OAlloc rq w) = Ok (s', OutGrant al) ->
+  exact_amount_ok (worker_pools s0) rq al = true /\ all_entries_free (a_pools (s_alloc s)) (worker_pools s0) rq = true.
+
+(** non-vacuity: a concrete reachable state with three live allocations satisfying the hypotheses, on which
+    the executable monitors (the same predicates, as booleans) evaluate to true *)
+Theorem C04_example_reachable : exists s0 s, init ex_desc = Ok s0 /\ run s0 (firstn 3 ex_ops) = Ok s /\ length (s_live s) = 3%nat
+  /\ exclusive_ok (a_pools (s_alloc s0)) (s_live s) = true
+  /\ conserved_ok (a_pools (s_alloc s0)) (a_pools (s_alloc s)) (s_live s) = true
+  /\ mirror_ok (a_pools (s_alloc s)) (a_free (s_alloc s)) = true.
+Proof. exact ex_mid_ok. Qed.
 
 Theorem C04_example_run : exists s, ex_final = Ok s /\ s_live s = [].
 Proof. exact ex_run_ok. Qed.
 
-Print Assumptions C04_example_run.
+Check C04_exclusive.
+Check C04_conservation.
+Print Assumptions C04_exclusive.
+Print Assumptions C04_sum_bound.
+Print Assumptions C04_conservation.
+Print Assumptions C04_told_is_held.
+Print Assumptions C04_release_restores.
+Print Assumptions C04_release_all_restores_initial.
+Print Assumptions C04_release_no_panic.
+Print Assumptions C04_exact_amount_partial.
+Print Assumptions C04_concise_mirrors_partial.
